@@ -16,6 +16,7 @@ import (
 	"github.com/hashicorp/consul/acl/resolver"
 	"github.com/hashicorp/consul/agent/consul/fsm"
 	"github.com/hashicorp/consul/agent/structs"
+	"github.com/hashicorp/consul/agent/token"
 )
 
 // VerifACLEnv is the part of a Server that token resolution touches (config, FSM/state store,
@@ -29,6 +30,12 @@ type VerifACLEnv struct {
 // serverACLResolverBackend (identities come from the state store of f, primary datacenter);
 // otherwise the given backend is used (client agents / secondaries resolve through RPC).
 func VerifNewACLEnv(f *fsm.FSM, backend ACLResolverBackend, settings ACLResolverSettings) (*VerifACLEnv, error) {
+	return VerifNewACLEnvTokens(f, backend, settings, nil)
+}
+
+// VerifNewACLEnvTokens is VerifNewACLEnv with a token store of locally managed tokens (agent recovery
+// token); nil = none, as before.
+func VerifNewACLEnvTokens(f *fsm.FSM, backend ACLResolverBackend, settings ACLResolverSettings, tokens *token.Store) (*VerifACLEnv, error) {
 	logger := hclog.NewNullLogger()
 	s := &Server{
 		config:  &Config{Datacenter: settings.Datacenter, PrimaryDatacenter: settings.Datacenter, NodeName: settings.NodeName},
@@ -36,6 +43,7 @@ func VerifNewACLEnv(f *fsm.FSM, backend ACLResolverBackend, settings ACLResolver
 		loggers: newLoggerStore(logger),
 	}
 	s.config.ACLResolverSettings = settings
+	s.logger = hclog.NewInterceptLogger(&hclog.LoggerOptions{Level: hclog.Off})
 	if backend == nil {
 		backend = &serverACLResolverBackend{Server: s}
 	}
@@ -47,6 +55,7 @@ func VerifNewACLEnv(f *fsm.FSM, backend ACLResolverBackend, settings ACLResolver
 		},
 		Backend:   backend,
 		ACLConfig: newACLConfig(&partitionInfoNoop{}, logger),
+		Tokens:    tokens,
 	})
 	if err != nil {
 		return nil, err
@@ -57,6 +66,11 @@ func VerifNewACLEnv(f *fsm.FSM, backend ACLResolverBackend, settings ACLResolver
 
 func (e *VerifACLEnv) ResolveToken(secret string) (resolver.Result, error) {
 	return e.srv.ACLResolver.ResolveToken(secret)
+}
+
+// FilterACL is the production filterACL: resolve the token, filter subj with its authorizer.
+func (e *VerifACLEnv) FilterACL(secret string, subj interface{}) error {
+	return e.srv.filterACL(secret, subj)
 }
 
 // Mask runs maskResultsFilteredByACLs on a response meta whose flag is `flag` and returns the flag
@@ -135,7 +149,7 @@ func VerifNewACLRaftEnv(f *fsm.FSM, settings ACLResolverSettings) (*VerifACLEnv,
 		return nil, err
 	}
 	s.raft = r
-	for i := 0; i < 2000 && r.State() != raft.Leader; i++ {
+	for i := 0; i < 15000 && r.State() != raft.Leader; i++ { // >= 30 s: a loaded machine must not fail the set-up
 		time.Sleep(2 * time.Millisecond)
 	}
 	if r.State() != raft.Leader {
@@ -184,3 +198,73 @@ func (e *VerifACLEnv) TokenList(requester string) ([]*structs.ACLTokenListStub, 
 
 // Reap is one run of the expired-token reaper for global tokens.
 func (e *VerifACLEnv) Reap() (int, error) { return e.srv.reapExpiredGlobalACLTokens() }
+
+// ---- read endpoints, unmodified, on the Raft-backed partial server (C09: the endpoint glue around
+// filterACL / FilterDirEnt / maskResultsFilteredByACLs). Each helper only fills in the request.
+
+func (e *VerifACLEnv) qopts(tok string) structs.QueryOptions {
+	return structs.QueryOptions{Token: tok}
+}
+
+func (e *VerifACLEnv) EpListNodes(tok string) (*structs.IndexedNodes, error) {
+	var reply structs.IndexedNodes
+	ep := &Catalog{srv: e.srv, logger: hclog.NewNullLogger()}
+	err := ep.ListNodes(&structs.DCSpecificRequest{Datacenter: e.srv.config.Datacenter, QueryOptions: e.qopts(tok)}, &reply)
+	return &reply, err
+}
+
+func (e *VerifACLEnv) EpServiceNodes(tok, service string) (*structs.IndexedServiceNodes, error) {
+	var reply structs.IndexedServiceNodes
+	ep := &Catalog{srv: e.srv, logger: hclog.NewNullLogger()}
+	err := ep.ServiceNodes(&structs.ServiceSpecificRequest{Datacenter: e.srv.config.Datacenter, ServiceName: service, QueryOptions: e.qopts(tok)}, &reply)
+	return &reply, err
+}
+
+func (e *VerifACLEnv) EpNodeServices(tok, node string) (*structs.IndexedNodeServices, error) {
+	var reply structs.IndexedNodeServices
+	ep := &Catalog{srv: e.srv, logger: hclog.NewNullLogger()}
+	err := ep.NodeServices(&structs.NodeSpecificRequest{Datacenter: e.srv.config.Datacenter, Node: node, QueryOptions: e.qopts(tok)}, &reply)
+	return &reply, err
+}
+
+func (e *VerifACLEnv) EpHealthServiceNodes(tok, service string) (*structs.IndexedCheckServiceNodes, error) {
+	var reply structs.IndexedCheckServiceNodes
+	ep := &Health{srv: e.srv, logger: hclog.NewNullLogger()}
+	err := ep.ServiceNodes(&structs.ServiceSpecificRequest{Datacenter: e.srv.config.Datacenter, ServiceName: service, QueryOptions: e.qopts(tok)}, &reply)
+	return &reply, err
+}
+
+func (e *VerifACLEnv) EpChecksInState(tok string) (*structs.IndexedHealthChecks, error) {
+	var reply structs.IndexedHealthChecks
+	ep := &Health{srv: e.srv, logger: hclog.NewNullLogger()}
+	err := ep.ChecksInState(&structs.ChecksInStateRequest{Datacenter: e.srv.config.Datacenter, State: "any", QueryOptions: e.qopts(tok)}, &reply)
+	return &reply, err
+}
+
+func (e *VerifACLEnv) EpSessionList(tok string) (*structs.IndexedSessions, error) {
+	var reply structs.IndexedSessions
+	ep := &Session{srv: e.srv, logger: hclog.NewNullLogger()}
+	err := ep.List(&structs.SessionSpecificRequest{Datacenter: e.srv.config.Datacenter, QueryOptions: e.qopts(tok)}, &reply)
+	return &reply, err
+}
+
+func (e *VerifACLEnv) EpKVList(tok, prefix string) (*structs.IndexedDirEntries, error) {
+	var reply structs.IndexedDirEntries
+	ep := &KVS{srv: e.srv, logger: hclog.NewNullLogger()}
+	err := ep.List(&structs.KeyRequest{Datacenter: e.srv.config.Datacenter, Key: prefix, QueryOptions: e.qopts(tok)}, &reply)
+	return &reply, err
+}
+
+func (e *VerifACLEnv) EpNodeDump(tok string) (*structs.IndexedNodeDump, error) {
+	var reply structs.IndexedNodeDump
+	ep := &Internal{srv: e.srv, logger: hclog.NewNullLogger()}
+	err := ep.NodeDump(&structs.DCSpecificRequest{Datacenter: e.srv.config.Datacenter, QueryOptions: e.qopts(tok)}, &reply)
+	return &reply, err
+}
+
+func (e *VerifACLEnv) EpCoordinates(tok string) (*structs.IndexedCoordinates, error) {
+	var reply structs.IndexedCoordinates
+	ep := &Coordinate{srv: e.srv, logger: hclog.NewNullLogger()}
+	err := ep.ListNodes(&structs.DCSpecificRequest{Datacenter: e.srv.config.Datacenter, QueryOptions: e.qopts(tok)}, &reply)
+	return &reply, err
+}
